@@ -34,6 +34,10 @@ def mk_case(rng):
         idx[rng.randrange(len(idx))] += rng.choice([1, 5, -1, -len(idx) - 2])   # broken vocabulary
     stoi = dict(zip(vocab, idx))
     itos = {i: s for s, i in stoi.items()}
+    if rng.random() < 0.35:                     # the inverse vocabulary built in any order (e.g. from an unordered source): only the mapping counts
+        its = list(itos.items())
+        rng.shuffle(its)
+        itos = dict(its)
     n = x.count('[') + x.count('.')
     pad = rng.choice([-3, -1, 0, n - 2, n - 1, n, n + 1, n + 2, n + 5, rng.randint(-3, n + 5)])
     et = rng.choice(['label', 'one_hot', 'both', 'both', 'label', 'one_hot', 'bad', '', 'Label'])
@@ -164,6 +168,10 @@ def run(rep, tier, seed, b):
         rng.shuffle(vocab)
         stoi = {s: i for i, s in enumerate(vocab)}
         itos = {i: s for s, i in stoi.items()}
+        if rng.random() < 0.35:
+            its = list(itos.items())
+            rng.shuffle(its)
+            itos = dict(its)
         pad = rng.choice([-1, 0, 3, 6, 10])
         batches.append((xs, stoi, itos, pad, rng.random() < 0.15))
     resb = core.pmap('p_c15', 'work_batch', batches, chunk=200)
